@@ -25,7 +25,7 @@ type Msg struct {
 	Role  int    `json:"role"`  // spectypes.BeaconRole, 99 = unknown
 	Dom   string `json:"dom"`   // ok | wrong
 	Topic string `json:"topic"` // ok | wrong
-	Env   string `json:"env"`   // none | good | good5 | badsig | unkop | short | nomsg
+	Env   string `json:"env"`   // none | good | good5 | badsig | unkop | short | nomsg | badkey1..4
 	Body  string `json:"body"`  // ok | empty | garbage          (SSVMessage.Data)
 	Mt    int    `json:"mt"`    // qbft message type 0..3, 9 = unknown
 	H     int    `json:"h"`     // slot code
@@ -45,14 +45,25 @@ type TimePoint struct {
 	O int `json:"o"`
 }
 
+// slot and round codes of spec/MsgValidation.tla (the real order is kept)
 const (
-	SlotZero = -1000
-	Slot62   = 900 // 2^62 + BaseSlot: its start time (uint64 seconds, wrapping) is the one of BaseSlot
-	Slot63   = 1000
-	SlotMax  = 1001
-	RoundBig = 1000
-	Round63  = 1001
-	RoundMax = 1002
+	SlotZero = -1000 // 0
+	SlotOne  = -999  // 1
+	Slot31M  = 801   // 2^31-1
+	Slot31   = 802   // 2^31
+	Slot32M  = 803   // 2^32-1
+	Slot32   = 804   // 2^32
+	Slot62   = 900   // 2^62 + BaseSlot: its start time (uint64 seconds, wrapping) is the one of BaseSlot
+	Slot63M  = 999   // 2^63-1
+	Slot63   = 1000  // 2^63
+	SlotMax  = 1001  // 2^64-1
+	Round31M = 990   // 2^31-1
+	Round31  = 991
+	Round32M = 992
+	RoundBig = 1000 // 2^32
+	Round63M = 1001 // 2^63-1
+	Round63  = 1002
+	RoundMax = 1003 // 2^64-1
 )
 
 // RealSlot maps a slot code to the real slot number.
@@ -60,8 +71,20 @@ func RealSlot(code int) uint64 {
 	switch code {
 	case SlotZero:
 		return 0
+	case SlotOne:
+		return 1
+	case Slot31M:
+		return 1<<31 - 1
+	case Slot31:
+		return 1 << 31
+	case Slot32M:
+		return 1<<32 - 1
+	case Slot32:
+		return 1 << 32
 	case Slot62:
 		return 1<<62 + BaseSlot
+	case Slot63M:
+		return 1<<63 - 1
 	case Slot63:
 		return 1 << 63
 	case SlotMax:
@@ -73,8 +96,16 @@ func RealSlot(code int) uint64 {
 // RealRound maps a round code to the real round number.
 func RealRound(code int) uint64 {
 	switch code {
+	case Round31M:
+		return 1<<31 - 1
+	case Round31:
+		return 1 << 31
+	case Round32M:
+		return 1<<32 - 1
 	case RoundBig:
 		return 1 << 32
+	case Round63M:
+		return 1<<63 - 1
 	case Round63:
 		return 1 << 63
 	case RoundMax:
@@ -362,6 +393,8 @@ func (e *Env) Concretise(m Msg) (*Concrete, error) {
 			sig = e.RSASign(op, append(append([]byte{}, c.Inner...), 'x'))
 		case "unkop":
 			op = UnknownOperator
+		case "badkey1", "badkey2", "badkey3", "badkey4":
+			op = BadKeyOperator + spectypes.OperatorID(m.Env[6]-'0') // registered, stored public key does not parse
 		}
 		c.EnvOp, c.EnvSig = op, sig
 		c.Data = commons.EncodeSignedSSVMessage(c.Inner, op, sig)
